@@ -380,3 +380,56 @@ Qed.
 Theorem elist_setslice_refusal ok a b ys l :
   forallb ok ys = false -> elist_setslice ok a b ys l = Err BadValue.
 Proof. intros H. unfold elist_setslice. rewrite H. reflexivity. Qed.
+
+(* ---------- inverse bookkeeping of a slice assignment ---------- *)
+Lemma zmem_In x l : zmem x l = true <-> In x l.
+Proof.
+  unfold zmem. induction l as [|y ys IH]; simpl; [split; [discriminate | tauto]|].
+  rewrite Bool.orb_true_iff, IH, Z.eqb_eq. tauto.
+Qed.
+
+Lemma release_In x old inv : In x (release old inv) <-> In x inv /\ ~ In x old.
+Proof.
+  unfold release. rewrite filter_In. split.
+  - intros [H1 H2]. split; [exact H1|]. intros Ho. apply zmem_In in Ho. rewrite Ho in H2. discriminate.
+  - intros [H1 H2]. split; [exact H1|]. destruct (zmem x old) eqn:E; [|reflexivity]. apply zmem_In in E. contradiction.
+Qed.
+
+Lemma nodup_app_disjoint {A} (X Y : list A) x : NoDup (X ++ Y) -> In x X -> In x Y -> False.
+Proof.
+  induction X as [|h X IH]; intros Hnd HX HY; [destruct HX|]. simpl in Hnd. inversion Hnd as [|? ? Hn Hnd']; subst.
+  destruct HX as [->|HX]; [apply Hn; apply in_or_app; right; exact HY | exact (IH Hnd' HX HY)].
+Qed.
+
+Lemma nodup_app_r {A} (X Y : list A) : NoDup (X ++ Y) -> NoDup Y.
+Proof. induction X as [|h X IH]; simpl; intros H; [exact H | inversion H; auto]. Qed.
+
+(* duplicate-free list, every element recorded and nothing else: after  c[a:b] = ys  (release, then link) exactly the
+   elements of the new list are recorded - also those that were replaced AND assigned again *)
+Theorem release_then_link_exact a b (ys l inv : list Z) :
+  NoDup l -> (forall x, In x inv <-> In x l) ->
+  forall x, In x (release_then_link (py_getslice a b l) ys inv) <-> In x (py_setslice a b ys l).
+Proof.
+  intros Hnd Hinv x. destruct (setslice_split a b ys l) as (F & S & Hl & Hs). rewrite Hs.
+  set (M := py_getslice a b l) in *. unfold release_then_link.
+  rewrite in_app_iff, release_In, Hinv. rewrite Hl in Hnd |- *.
+  assert (HFS : In x (F ++ M ++ S) /\ ~ In x M <-> In x F \/ In x S).
+  { rewrite !in_app_iff. split.
+    - intros [[H|[H|H]] Hn]; tauto.
+    - intros [H|H]; (split; [tauto|]); intros HM.
+      + apply (nodup_app_disjoint F (M ++ S) x Hnd H). apply in_or_app. left. exact HM.
+      + apply (nodup_app_disjoint M S x (nodup_app_r F (M ++ S) Hnd) HM H). }
+  rewrite HFS. rewrite !in_app_iff. tauto.
+Qed.
+
+(* linking first and releasing afterwards (the code before fix 98a932c) loses the record of an element that is
+   replaced and assigned again:  c = [1; 2];  c[0:2] = [2; 3]  leaves 2 in the list, unrecorded *)
+Theorem link_then_release_refuted :
+  exists a b ys l x,
+    NoDup l /\ In x (py_setslice a b ys l) /\ ~ In x (link_then_release (py_getslice a b l) ys l).
+Proof.
+  exists (Some 0), (Some 2), [2; 3], [1; 2], 2. split; [|split].
+  - repeat constructor; simpl; intuition discriminate.
+  - vm_compute. tauto.
+  - vm_compute. intuition discriminate.
+Qed.
